@@ -45,6 +45,7 @@ type HInput struct {
 }
 type HStepObs struct {
 	H        int64     `json:"h"`
+	Pre      Pre       `json:"pre"` // staking view right before this step's EndBlocker
 	Panic    bool      `json:"panic"`
 	Rates    []Rate    `json:"rates"`
 	Events   []Tuple   `json:"events"`
@@ -95,6 +96,7 @@ func runHist(t *testing.T, in HInput) (HObs, error) {
 			f.OracleKeeper.Prevotes.Insert(c, va, otypes.NewAggregateExchangeRatePrevote(otypes.AggregateVoteHash([]byte("0123456789abcdefghij")), va, pv.Submit))
 		}
 		so := HStepObs{H: h, Rates: []Rate{}, Events: []Tuple{}, Votes: []Vote{}, Prevotes: []Prevote{}}
+		so.Pre = readPre(f, c, len(in.Vals))
 		pan := Recover(func() { oracle.EndBlocker(c, f.OracleKeeper) })
 		if pan != "" {
 			so.Panic = true
@@ -139,6 +141,12 @@ func genHist(r *Rng) HInput {
 		MinV: []uint64{1, 2, 3, 4}[r.Intn(4)],
 		Exp:  []uint64{0, 2, 5, 20}[r.Intn(4)],
 		Band: "20000000000000000",
+	}
+	if r.Chance(3, 5) {
+		// a slash window of a few vote periods: validators that voted out of band earlier are slashed and
+		// jailed (and leave the power index) at a block that is also a vote-period end
+		in.Params.Win = in.Params.VP * uint64(r.Range(2, 4))
+		in.Params.MV = []string{"690000000000000000", "900000000000000000", "1000000000000000000", "500000000000000000"}[r.Intn(4)]
 	}
 	for p := 0; p < nPairs; p++ {
 		if r.Chance(1, 2) {
